@@ -17,6 +17,14 @@ CLAIMED = {
         text="Every input coercer (non-null, list, null wrapper, scalar, enum, input object, input field, directive wrapper), get_input_coercer, variable_coercer and coerce_variables are verified against the CoerceInput / CoerceVariableValues oracle (specs/inputs.py) relative to the behaviour each closure denotes; loops by invariants, recursion over types by the callee contract, for all JSON values and all type nestings.",
         ref="DESIGN.md section 4 C04",
         note="Custom scalar coerce_input and directive hooks are uninterpreted (shared by code summaries and oracle); literal coercion of default values is opaque in this property (C05); asyncio.gather positional; build_execution_context/execute abort clause is covered under C18 when claimed."),
+    'C02': dict(
+        text="Null propagation and error accounting of GraphQL 6.4.4 as normal/exceptional postconditions of the real completion functions: handle_field_error, complete_value_catching_error, the output non-null / list (both flavours, one contract) / scalar / directive coercers, the null wrapper, located_error, extract_exceptions_from_results, ExecutionContext.add_error, MultipleException.__add__/__bool__, get_output_coercer; each function is checked against its callees' contracts, loops by invariants, for all resolver values and all type nestings.",
+        ref="DESIGN.md section 4 C02",
+        note="User resolvers / hooks opaque (they raise Exceptions only); the path/locations binding inside located_error (coerce_value partials) is under a count-and-shape contract only, not the full 'path of the innermost failing field' clause; execute_fields/execute_operation are covered by C01/C09 contracts; locations inside the query text depend on the absent C parser."),
+    'C03': dict(
+        text="Every output coercer returns, for arbitrary resolver values (ResWf universe), a value conforming to the behaviour its closure denotes (Conf: non-null never null, lists of conforming items, leaves produced by the type's serialiser) or raises a well-formed exception that C02's contracts turn into null+error; get_output_coercer builds exactly the closure prescribed for the declared type; the five built-in scalars' coerce_output obey the C10 output laws.",
+        ref="DESIGN.md section 4 C03",
+        note="Custom scalar coerce_output opaque (Produced/ScOut_* uninterpreted); object and abstract completion (ObjConf/AbsConf) belong to C01; Engine.execute's catch-all is covered under C18; values with numeric dunder protocols are outside the value universe."),
 }
 
 REASON_PENDING = "contracts for this property are not in place in this revision (DESIGN.md section 8 delivery order); no other technique is substituted"
